@@ -1031,7 +1031,7 @@ def replay(prop, path):
                         return 1
             print("replay: 4 storms accepted")
             return 0
-        evs, rc, err = run_dkgdrv([sc], wd, "replay", dirk=build_dirk() if "-bin-" in str(sc.get("id", "")) else None)
+        evs, rc, err = run_dkgdrv([sc], wd, "replay", dirk=build_dirk() if "-bin-" in str(sc.get("id", "")) or sc.get("faulty_grpc") else None)
         lines = []
         if obj["module"] == "ClusterTrace":
             lines.append(dict(ev="Begin", sc=sc["id"], n=sc["n"], t=sc["t"]))
